@@ -21,7 +21,10 @@ pub static DEF: CheckDef = CheckDef {
            interior node, a leaf, the same node again, directly or through a clone -, clear a gradient via \
            replace_gradient or gradient_mut, start/stop_tracking on a handle, drop a handle}; 20 steps (thorough 40). \
            family untracked-then-tracked: a leaf first used while untracked in a differentiated graph, then \
-           start_tracking() and used again. After every step all live handles are compared with the ledger. \
+           start_tracking() and used again; family model-accumulation: parameters of real dense / conv layers \
+           accumulate over passes made by hand (layers called directly, cost closure differentiated by the caller) and \
+           by a Model (1..3 forward/backward pairs on micro-batches of changing size, no update), compared with the sum \
+           of the single-pass reference gradients. After every step all live handles are compared with the ledger. \
            Non-trivial = the history has >= 2 passes and some slot received >= 2 contributions; distinct = distinct \
            history text (program + step list).",
     floors,
@@ -33,7 +36,7 @@ pub static DEF: CheckDef = CheckDef {
 };
 
 fn families(t: Tier) -> Vec<(&'static str, u64)> {
-    vec![("history", t.n(15_000, 900_000)), ("untracked-then-tracked", t.n(4_000, 240_000))]
+    vec![("history", t.n(15_000, 900_000)), ("untracked-then-tracked", t.n(4_000, 240_000)), ("model-accumulation", t.n(1_500, 120_000))]
 }
 fn floors(_t: Tier) -> Vec<(&'static str, u64)> {
     vec![
@@ -44,6 +47,8 @@ fn floors(_t: Tier) -> Vec<(&'static str, u64)> {
         ("passes_repeat-same-node", 1_000),
         ("passes_node-inside-earlier-graph", 1_000),
         ("clears", 2_000),
+        ("model_accumulations_compared", 500),
+        ("model_accumulation_passes", 3_000),
     ]
 }
 
@@ -64,7 +69,150 @@ fn report(ctx: &mut Ctx, fam: &str, h: &Hist) {
     }
 }
 
+/// Gradient accumulation on the parameters of real layers: passes made by hand (layers called directly, the cost
+/// closure applied and differentiated by the caller) and passes made by a Model (forward / backward pairs on several
+/// micro-batches, no update in between). Afterwards every parameter's gradient must be the sum of what the passes
+/// produce alone (forward-mode reference per pass).
+fn run_model_accumulation(ctx: &mut Ctx, r: &mut Rng) {
+    use crate::cg::*;
+    use crate::ctx::guard;
+    use crate::nn::*;
+    use corgi::cost::{self, CostFunction};
+    use corgi::layer::Layer;
+    use corgi::model::Model;
+    use corgi::numbers::Float;
+    use corgi::optimizer::gd::GradientDescent;
+    let spec = gen_net(r, false);
+    let params = gen_params(r, &spec, false);
+    let rank_unbatched = if spec.is_conv() { 3 } else { 1 };
+    let has_batch = spec.in_dims.len() > rank_unbatched;
+    let (n_before, n_model, n_after) = (r.below(3), r.range(1, 3), r.below(2));
+    let total = n_before + n_model + n_after;
+    let mut batches = vec![];
+    for _ in 0..total {
+        let mut s2 = spec.clone();
+        if has_batch && r.chance(1, 2) {
+            s2.in_dims[0] = r.range(1, 4);
+        }
+        let input = gen_input(r, &s2, false);
+        let out = match forward_ref::<f64>(&s2, &params, &input) {
+            Some((o, _)) => o,
+            None => return,
+        };
+        let target = gen_target(r, &out.dims);
+        batches.push((input, target));
+    }
+    let desc = format!("model-accumulation|{}|by-hand={} model-pairs={} by-hand-after={} batches={:?}", spec.describe(), n_before, n_model, n_after, batches.iter().map(|b| b.0.dims.clone()).collect::<Vec<_>>());
+    ctx.case(&desc, total >= 2);
+    ctx.sample("model-accumulation", || desc.clone());
+    // reference: sum of the single-pass gradients
+    let np = params.len();
+    let mut want: Vec<Vec<f64>> = params.iter().map(|p| vec![0.0; p.v.len()]).collect();
+    let mut scale: Vec<Vec<f64>> = want.clone();
+    let mut kinked = false;
+    for (input, target) in &batches {
+        match loss_and_grads(&spec, &params, input, target) {
+            Some((loss, g, sc, kink)) => {
+                if !loss.is_finite() {
+                    return;
+                }
+                kinked |= kink;
+                for i in 0..np {
+                    for j in 0..g[i].len() {
+                        want[i][j] += g[i][j];
+                        scale[i][j] += sc[i][j];
+                    }
+                }
+            }
+            None => return,
+        }
+    }
+    let res = guard(|| {
+        let a = Acts::new();
+        let mut layers = build_layers(&spec, &a, &params);
+        let costf: CostFunction = if spec.ce { cost::cross_entropy() } else { cost::mse() };
+        let opt = GradientDescent::new(0.5);
+        let by_hand = |layers: &Vec<RealLayer>, b: &(crate::refmodel::T<f64>, crate::refmodel::T<f64>)| {
+            let mut x = arr_t(&b.0);
+            for l in layers.iter() {
+                x = l.forward(x);
+            }
+            let c = costf(&x, &arr_t(&b.1));
+            c.backward(None);
+        };
+        let mut k = 0;
+        for _ in 0..n_before {
+            by_hand(&layers, &batches[k]);
+            k += 1;
+        }
+        {
+            let refs: Vec<&mut dyn Layer> = layers.iter_mut().map(|s| s as &mut dyn Layer).collect();
+            let mut model = Model::new(refs, &opt, &costf);
+            for _ in 0..n_model {
+                let _ = model.forward(arr_t(&batches[k].0));
+                let _ = model.backward(arr_t(&batches[k].1));
+                k += 1;
+            }
+        }
+        for _ in 0..n_after {
+            by_hand(&layers, &batches[k]);
+            k += 1;
+        }
+        let mut got: Vec<Option<(Vec<usize>, Vec<f64>)>> = vec![];
+        for l in layers.iter_mut() {
+            for p in l.parameters() {
+                got.push(p.gradient().as_ref().map(|g| (g.dimensions().to_vec(), vals(g))));
+            }
+        }
+        let _ = 0.0 as Float;
+        got
+    });
+    ctx.count("model_accumulation_passes", total as u64);
+    let got = match res {
+        Ok(g) => g,
+        Err(m) => {
+            ctx.violation(&format!("C10|model-accumulation|panic:{}", panic_class(&m)), format!("{} panicked: {}", desc, m));
+            return;
+        }
+    };
+    ctx.meta(|| format!("{} {:?}", desc, got.iter().map(|g| g.as_ref().map(|x| x.0.clone())).collect::<Vec<_>>()));
+    if kinked {
+        ctx.count("model_accumulations_skipped_kink", 1);
+        return;
+    }
+    ctx.count("model_accumulations_compared", 1);
+    for i in 0..np {
+        match &got[i] {
+            None => {
+                ctx.violation("C10|model-accumulation|gradient-missing", format!("parameter {} holds no gradient after {} passes\n{}", i, total, desc));
+                return;
+            }
+            Some((d, v)) => {
+                if d != &params[i].dims {
+                    ctx.violation("C10|model-accumulation|gradient-dims", format!("parameter {} dims {:?} gradient dims {:?}\n{}", i, params[i].dims, d, desc));
+                    return;
+                }
+                for j in 0..v.len() {
+                    let sc = scale[i][j].max(1.0) * 10.0;
+                    let e = (v[j] - want[i][j]).abs();
+                    ctx.fmax("model-accumulation", e / (tau() * sc));
+                    if !(e <= tau() * sc) {
+                        ctx.violation(
+                            "C10|model-accumulation|not-the-sum-of-the-passes",
+                            format!("parameter {} element {}: gradient {} after {} passes, the passes alone give {} in total\n{}", i, j, v[j], total, want[i][j], desc),
+                        );
+                        return;
+                    }
+                }
+            }
+        }
+    }
+}
+
 pub fn run_case(ctx: &mut Ctx, fam: &str, _k: u64, r: &mut Rng) {
+    if fam == "model-accumulation" {
+        return run_model_accumulation(ctx, r);
+    }
     let mut cfg = if r.chance(3, 4) { GenCfg::exact() } else { GenCfg::smooth() };
     cfg.max_ops = 100;
     cfg.conv = false;
